@@ -6,7 +6,8 @@ import Operon.Model.Cffl
   cfg <gate> <breakerOn> <threshold> <timeoutUs> <cacheOn> <ttlUs> [<budget> [stub|real]]   -> "ok"
   run <pid|u<pid>> <zVerdict|exc..> <yVerdict|exc..>                        -> result ; stats
       agent exceptions: exc / excK / excR = an Exception that can be rendered (RuntimeError, KeyError without
-      arguments, one whose __repr__ raises), excS = an Exception whose __str__ raises, excB = a BaseException
+      arguments, one whose __repr__ raises), excS = an Exception whose __str__ raises, excB = a BaseException;
+      u:<VERDICT> = that verdict with a payload whose __str__ raises (`runP`)
   set onblock|onpermit none|ok|raise          -> "- ; stats"   loop.on_block / loop.on_permit re-assigned: not set,
       a callable that returns, a callable that raises HookError (the result it was given is shown before `!HookError`)
   adv <us> | resetcb | clearcache                                           -> "- ; stats"
@@ -47,38 +48,44 @@ structure DSt where
   store : Store := {}
   hooks : Hooks := {}
   tally : Tally := {}
+  silent : Bool := true
 
 /-- The agents of the harness (stubs, and the built-in BioAgent on prompts its membrane lets through) first ask
-    the store for 10 ATP and answer FAILURE when refused; otherwise they give the scripted response.  The model
-    `run` takes the responses the agents ACTUALLY give; this function computes them: the executor is consulted
-    exactly when `run` consults it (which does not depend on the responses), the assessor exactly when the
-    executor did not raise. -/
-def runWithEnergy (d : DSt) (p : Prompt) (zr yr : Resp) : DSt × State × Out :=
-  let trial := run d.cfg idHashes d.st p zr yr
-  if trial.1.execCalls = d.st.execCalls then ({ d with st := trial.1 }, trial.1, trial.2)
+    the store for 10 ATP and answer FAILURE (with a printable payload) when refused; otherwise they give the scripted
+    response.  The model `run` / `runP` takes the responses the agents ACTUALLY give; this function computes them:
+    the executor is consulted exactly when `run` consults it (which does not depend on the responses), the assessor
+    exactly when the executor answered. -/
+def effective (d : DSt) (p : Prompt) (zr yr : RespP) : Store × RespP × RespP :=
+  let trial := run d.cfg idHashes d.st p zr.resp yr.resp
+  if trial.1.execCalls = d.st.execCalls then (d.store, zr, yr)
   else
     let (store1, ok1) := d.store.consume d.cfg.cost
-    let zEff := if ok1 then zr else .ret .failure
-    match zEff with
-    | .exc | .excU | .excB =>
-      let r := run d.cfg idHashes d.st p zEff yr
-      ({ d with st := r.1, store := store1 }, r.1, r.2)
+    let zEff : RespP := if ok1 then zr else ⟨.ret .failure, true⟩
+    match zEff.resp with
     | .ret _ =>
       let (store2, ok2) := store1.consume d.cfg.cost
-      let yEff := if ok2 then yr else .ret .failure
-      let r := run d.cfg idHashes d.st p zEff yEff
-      ({ d with st := r.1, store := store2 }, r.1, r.2)
+      (store2, zEff, if ok2 then yr else ⟨.ret .failure, true⟩)
+    | _ => (store1, zEff, yr)
+
+def runWithEnergy (d : DSt) (p : Prompt) (zr yr : RespP) : DSt × State × Out × RespP :=
+  let (store', z', y') := effective d p zr yr
+  let r := runP d.cfg idHashes d.st p z' y'
+  ({ d with st := r.1, store := store' }, r.1, r.2, z')
 
 def gateOf : String → Gate
   | "and" => .and | "or" => .or | "majority" => .majority | "unanimous" => .unanimous
   | "executor_priority" => .execPrio | "assessor_priority" => .assessPrio | _ => .and
 
-def respOf (s : String) : Resp :=
+def respOf0 (s : String) : Resp :=
   if s = "exc" || s = "excK" || s = "excR" then .exc
   else if s = "excS" then .excU
   else if s = "excB" then .excB
   else if s.startsWith "x:" then .ret (classify (String.ofList ((decodeCps (s.drop 2).toString).map Char.ofNat)))
   else .ret (classify s)
+
+/-- `u:<verdict>`: that verdict with a payload that cannot be rendered -/
+def respOf (s : String) : RespP :=
+  if s.startsWith "u:" then ⟨respOf0 (s.drop 2).toString, false⟩ else ⟨respOf0 s, true⟩
 
 def promptOf (s : String) : Prompt :=
   if s.startsWith "u" then ⟨natD (s.drop 1).toString, false⟩ else ⟨natD s, true⟩
@@ -113,19 +120,21 @@ def showRes (r : Result) : String :=
 /-- what the caller sees: the reply, the exception a callback raised (after the result it was given), or the
     exception `run` raised: the rendering error of an unprintable agent exception, the agent's BaseException, or
     the UnicodeEncodeError of an un-encodable prompt -/
-def showDelivery (o : Out) : Delivery → String
+def showDelivery (o : Out) (enc : Bool) : Delivery → String
   | .reply r => showRes r
   | .hookRaised r => showRes r ++ " !HookError"
+  | .printRaised r => showRes r ++ " !ValueError"
   | .nothing =>
     match o.kind with
     | .agentExc => "raise:ValueError"
     | .aborted => "raise:AgentAbort"
-    | _ => "raise:UnicodeEncodeError"
+    | _ => if enc then "raise:ValueError" else "raise:UnicodeEncodeError"   -- payload rendering / prompt encoding
 
-/-- the tail of `run` (statistics, callbacks) for the request handled as `o` -/
-def tail (d : DSt) (o : Out) : DSt × String :=
-  let (t, dl) := deliver d.hooks d.tally o
-  ({ d with tally := t }, showDelivery o dl)
+/-- the tail of `run` (statistics, callbacks, console) for the request for prompt `p` handled as `o`; `zOk`: the
+    executor's payload can be rendered -/
+def tail (d : DSt) (p : Prompt) (zOk : Bool) (o : Out) : DSt × String :=
+  let (t, dl) := deliver d.hooks d.tally o (!d.silent && !zOk)
+  ({ d with tally := t }, showDelivery o p.enc dl)
 
 def showEvent : BEvent → String
   | .success => "success" | .neither => "neither" | .failure => "failure"
@@ -160,8 +169,8 @@ def mkCfg (g b thr tmo c ttl : String) : Cfg :=
 /-- one level of a nest of overlapping requests -/
 structure Level where
   p : Prompt
-  z : Resp
-  y : Resp
+  z : RespP
+  y : RespP
   atExec : Bool      -- the next level is issued (and the clock advanced) inside the executor call, else the assessor call
   d : Nat
 
@@ -174,9 +183,9 @@ def ph (d : DSt) (op : PhaseOp) : DSt × Option Out :=
   ({ d with st := r.1 }, r.2)
 
 /-- the phase at which a request is answered, followed by the tail of `run` -/
-def endPhase (d : DSt) (op : PhaseOp) (inner : List String) : DSt × List String :=
+def endPhase (d : DSt) (p : Prompt) (zOk : Bool) (op : PhaseOp) (inner : List String) : DSt × List String :=
   match ph d op with
-  | (d', some o) => let (d'', r) := tail d' o; (d'', r :: inner)
+  | (d', some o) => let (d'', r) := tail d' p zOk o; (d'', r :: inner)
   | (d', none) => (d', "?" :: inner)
 
 /-- A nest of overlapping requests as a phase history: every state change below is one `phaseStep` (the energy
@@ -186,7 +195,7 @@ def nestRun (d : DSt) : List Level → DSt × List String
   | L :: rest =>
     let skipped := rest.map fun _ => "-"
     match ph d (.lookup L.p) with
-    | (d0, some o) => let (d0', r) := tail d0 o; (d0', r :: skipped)
+    | (d0, some o) => let (d0', r) := tail d0 L.p true o; (d0', r :: skipped)
     | (d0, none) =>
       let d1 := (ph d0 .execCall).1
       let (d2, inner) := if L.atExec then
@@ -195,10 +204,11 @@ def nestRun (d : DSt) : List Level → DSt × List String
         else (d1, skipped)
       let (store1, ok1) := d2.store.consume d2.cfg.cost
       let d3 := { d2 with store := store1 }
-      match (if ok1 then L.z else Resp.ret .failure) with
-      | .exc => endPhase d3 .agentRaised inner
-      | .excU => endPhase d3 .agentRaisedU inner
-      | .excB => endPhase d3 .agentAborted inner
+      let zE : RespP := if ok1 then L.z else ⟨.ret .failure, true⟩
+      match zE.resp with
+      | .exc => endPhase d3 L.p true .agentRaised inner
+      | .excU => endPhase d3 L.p true .agentRaisedU inner
+      | .excB => endPhase d3 L.p true .agentAborted inner
       | .ret zc =>
         let d4 := (ph d3 .assessCall).1
         let (d5, inner) := if L.atExec then (d4, inner) else
@@ -206,11 +216,17 @@ def nestRun (d : DSt) : List Level → DSt × List String
           ((ph dd (.adv L.d)).1, inn)
         let (store2, ok2) := d5.store.consume d5.cfg.cost
         let d6 := { d5 with store := store2 }
-        match (if ok2 then L.y else Resp.ret .failure) with
-        | .exc => endPhase d6 .agentRaised inner
-        | .excU => endPhase d6 .agentRaisedU inner
-        | .excB => endPhase d6 .agentAborted inner
-        | .ret yc => endPhase d6 (.finish L.p zc yc) inner
+        let yE : RespP := if ok2 then L.y else ⟨.ret .failure, true⟩
+        match yE.resp with
+        | .exc => endPhase d6 L.p true .agentRaised inner
+        | .excU => endPhase d6 L.p true .agentRaisedU inner
+        | .excB => endPhase d6 L.p true .agentAborted inner
+        | .ret yc =>
+          -- `_apply_gate_logic` raises while rendering a payload: the finish phase does not happen (`runP`)
+          if L.p.enc && renderFails d6.cfg.gate zE yE then
+            let (d7, r) := tail d6 L.p true ⟨.raised, none⟩
+            (d7, r :: inner)
+          else endPhase d6 L.p zE.payloadOk (.finish L.p zc yc) inner
 
 def nestLine (d : DSt) (toks : List String) : DSt × String :=
   let ls := levelsOf toks
@@ -229,13 +245,15 @@ def step (d : DSt) (toks : List String) : DSt × String :=
   | ["cfg", g, b, thr, tmo, c, ttl, bud, _] =>
     ({ cfg := mkCfg g b thr tmo c ttl, st := {}, store := { atp := natD bud, cap := natD bud } }, "ok")
   | ["run", p, z, y] =>
-    let (d1, s', o) := runWithEnergy d (promptOf p) (respOf z) (respOf y)
-    let (d', shown) := tail d1 o
+    let (d1, s', o, zE) := runWithEnergy d (promptOf p) (respOf z) (respOf y)
+    let (d', shown) := tail d1 (promptOf p) zE.payloadOk o
     (d', shown ++ " ; " ++ showStatsD d' ++ " ## " ++ tags d.cfg d.st s' o
       ++ (if d'.store.atp = d.store.atp ∧ s'.execCalls ≠ d.st.execCalls then " energy:refused" else "")
       ++ (if d'.tally.blockHookCalls ≠ d.tally.blockHookCalls then " hook:block" else "")
       ++ (if d'.tally.permitHookCalls ≠ d.tally.permitHookCalls then " hook:permit" else "")
       ++ (if shown.endsWith "!HookError" then " hook:raised" else "")
+      ++ (if shown.endsWith "!ValueError" then " print:raised" else "")
+      ++ (if o.kind = .raised ∧ (promptOf p).enc then " payload:unrenderable" else "")
       ++ (if o.kind = .agentExc ∧ o.result.isNone then " exc:unprintable" else ""))
   | ["adv", us] =>
     let (s', _) := Cffl.step d.cfg idHashes d.st (.adv (natD us))
@@ -268,10 +286,11 @@ def step (d : DSt) (toks : List String) : DSt × String :=
       | "thr" => some { c with threshold := intD v }
       | "tmo" => some { c with timeout := intD v }
       | "agents" => some c
-      | "silent" => some c      -- console output on / off: no modelled behaviour depends on it
+      | "silent" => some c      -- console output on / off (DSt.silent, below): only `deliver`'s printFails reads it
       | _ => none
     match c' with
-    | some c' => ({ d with cfg := c' }, "- ; " ++ showStatsD d ++ " ## set:" ++ k)
+    | some c' => ({ d with cfg := c', silent := if k = "silent" then boolOf v else d.silent },
+                  "- ; " ++ showStatsD d ++ " ## set:" ++ k)
     | none => (d, "bad-op")
   | ["reenter", _, _, _, _, _, _, _, _, _, _] => (d, "ok")   -- re-entrant agent stubs: judged by the harness oracle only
   | _ => (d, "bad-op")
